@@ -152,7 +152,17 @@ func (c *SimClock) Now() time.Time {
 	if base == 0 {
 		base = 1_700_000_000
 	}
-	c.s.now += 1_000_000_000 // every read advances the clock by one second: a second read is visible
+	// reading the clock takes time: other requests may run meanwhile
+	if tk := c.s.curTask(); tk != nil && !c.s.inAbort() {
+		c.s.yield(Op{Kind: opPause, Method: "clock.Now"})
+	}
+	// every read advances the clock (a second read is visible); the step varies between 1 ms and ~1.5 s so that
+	// consecutive readings fall within one second as well as across second boundaries
+	step := int64(1_000_000_000)
+	if c.srv.Spec.ClockFine {
+		step = 1_000_000 * int64(1+(len(c.Reads)*7919+int(c.srv.Spec.ClockBase%997))%1500)
+	}
+	c.s.now += step
 	if f := c.s.faultsAt[fmt.Sprintf("clock|%d", len(c.Reads)+1)]; f != nil && c.srv == c.s.World.Servers[c.s.World.Order[0]] {
 		var d int64
 		fmt.Sscan(f.Arg, &d)
@@ -177,6 +187,7 @@ func (c *SimClock) Now() time.Time {
 // ---- response recorder ------------------------------------------------------
 
 type Recorder struct {
+	s          *Sim
 	hdr        http.Header
 	Status     int
 	WriteHdrN  int
@@ -202,6 +213,9 @@ func (r *Recorder) WriteHeader(code int) {
 	}
 }
 func (r *Recorder) Write(b []byte) (int, error) {
+	if r.s != nil && !r.inApp && !r.s.inAbort() && r.s.curTask() != nil {
+		r.s.yield(Op{Kind: opPause, Method: "http.Write"}) // a slow client
+	}
 	if r.inApp {
 		r.AppWrites++
 		return len(b), nil
@@ -284,6 +298,7 @@ func (w *World) runRequest(t *Task, rs *ReqSpec) {
 	t.Req = rs
 	t.EntryKind = rs.Kind
 	t.Rec = newRecorder()
+	t.Rec.s = w.s
 	if rs.Kind == "handler" || rs.Kind == "send" {
 		t.authOK, t.blockOK = true, true
 	}
